@@ -241,6 +241,9 @@ pub struct LogRec {
     pub mismatch: u8,
     pub d_size: u64,
     pub d_align: u32,
+    /// 1 + offset of the first byte written after the block was freed (0 = none)
+    pub damage_off: u32,
+    pub damage_n: u32,
 }
 
 #[derive(Debug, Clone, Default)]
@@ -266,6 +269,9 @@ pub struct BatchReport {
     pub table_overflow: u32,
     pub old_freed: u32,
     pub null_allocs: u32,
+    /// quarantined (freed, poisoned) blocks whose poison changed before every thread was gone
+    pub uaf_writes: u32,
+    pub quar_overflow: u32,
     pub specs: Vec<SpecRep>,
     pub log: Vec<LogRec>,
 }
@@ -296,6 +302,8 @@ pub fn parse_report(b: &[u8]) -> Option<BatchReport> {
     rep.table_overflow = r.u32();
     rep.old_freed = r.u32();
     rep.null_allocs = r.u32();
+    rep.uaf_writes = r.u32();
+    rep.quar_overflow = r.u32();
     for _ in 0..rep.n {
         let spawn_errno = r.u32() as i32;
         let join_class = r.u8();
@@ -328,7 +336,9 @@ pub fn parse_report(b: &[u8]) -> Option<BatchReport> {
         r.u8();
         let d_size = r.u64();
         let d_align = r.u32();
-        rep.log.push(LogRec { ptr, size, align, alloc_tid, free_tid, spec, mismatch, d_size, d_align });
+        let damage_off = r.u32();
+        let damage_n = r.u32();
+        rep.log.push(LogRec { ptr, size, align, alloc_tid, free_tid, spec, mismatch, d_size, d_align, damage_off, damage_n });
     }
     if r.bad {
         None
